@@ -25,6 +25,8 @@ pub struct Cfg {
     pub trace: bool,
     pub only_case: Option<String>,
     pub scale: u32,
+    /// minimal boundary workload (for the interpreter)
+    pub tiny: bool,
 }
 
 impl Cfg {
@@ -45,6 +47,7 @@ impl Cfg {
             trace: false,
             only_case: None,
             scale: 1,
+            tiny: false,
         }
     }
     pub fn thorough(seed: u64) -> Cfg {
@@ -64,6 +67,7 @@ impl Cfg {
             trace: false,
             only_case: None,
             scale: 1,
+            tiny: false,
         }
     }
 }
@@ -88,6 +92,10 @@ pub fn raws(base_w: u32, fmask: u128, rng: &mut Rng, cfg: &Cfg, n_rand: u32) -> 
     let bm = mask(base_w);
     if base_w <= cfg.exh_raw_bits {
         return ((0..=bm).collect(), true);
+    }
+    if cfg.tiny {
+        let v = vec![0, bm, fmask & bm, !fmask & bm, 0x5555_5555_5555_5555_5555_5555_5555_5555 & bm, rng.bits128() & bm, 1u128 << (base_w - 1)];
+        return (dedup(v), false);
     }
     let mut v: Vec<u128> = vec![0, bm, fmask & bm, !fmask & bm];
     v.push(0x5555_5555_5555_5555_5555_5555_5555_5555 & bm);
@@ -114,6 +122,9 @@ pub fn raws(base_w: u32, fmask: u128, rng: &mut Rng, cfg: &Cfg, n_rand: u32) -> 
 /// A small set of raw values (for pairing with many written values).
 pub fn raws_small(base_w: u32, fmask: u128, rng: &mut Rng, n_rand: u32) -> Vec<u128> {
     let bm = mask(base_w);
+    if n_rand == 0 {
+        return dedup(vec![0, bm, !fmask & bm, rng.bits128() & bm]);
+    }
     let mut v: Vec<u128> = vec![
         0,
         bm,
@@ -151,6 +162,9 @@ pub fn vals(fd: &FieldDesc, rng: &mut Rng, cfg: &Cfg, n_rand: u32, single_bits: 
         return ((0..=m).collect(), true);
     }
     let msb = 1u128 << (w - 1);
+    if cfg.tiny {
+        return (dedup(vec![0, m, 1, msb, msb - 1, rng.bits128() & m]), false);
+    }
     let mut v: Vec<u128> = vec![
         0,
         m,
@@ -179,8 +193,12 @@ pub fn vals(fd: &FieldDesc, rng: &mut Rng, cfg: &Cfg, n_rand: u32, single_bits: 
 
 /// Out-of-range indices for an array of `count` elements with `stride`, including candidates whose
 /// `index * stride` wraps around 2^64 to a small value.
-pub fn oob_indices(count: u32, stride: u32, storage_w: u32) -> Vec<usize> {
+pub fn oob_indices(count: u32, stride: u32, storage_w: u32, tiny: bool) -> Vec<usize> {
     let k = count as u128;
+    if tiny {
+        let w = if stride > 0 { ((1u128 << 64) + stride as u128 - 1) / stride as u128 } else { 1u128 << 63 };
+        return vec![k as usize, storage_w.max(count + 1) as usize, w as usize, usize::MAX];
+    }
     let mut v: Vec<u128> = vec![k, k + 1, 2 * k, 2 * k + 1, storage_w as u128, 128, 255, 256, 1 << 16, 1 << 31, 1 << 32, (1 << 32) + 1];
     let two64: u128 = 1u128 << 64;
     if stride > 0 {
